@@ -71,14 +71,66 @@ class Normalise(ast.NodeTransformer):
         return node
 
 
+def inline_local_functions(fn):
+    """a helper defined inside the method (`def g(a): …; return e`) and called as `x = g(args)` is expanded at the call:
+    its parameters and locals get fresh names, its single trailing `return e` becomes `x = e`"""
+    helpers = {}
+    for st in ast.walk(fn):
+        if st is not fn and isinstance(st, ast.FunctionDef) and not st.decorator_list and not st.args.vararg and not st.args.kwarg \
+                and not st.args.kwonlyargs and not st.args.defaults and st.body and isinstance(st.body[-1], ast.Return) \
+                and not any(isinstance(n_, ast.Return) for b_ in st.body[:-1] for n_ in ast.walk(b_)) \
+                and not any(isinstance(n_, ast.Call) and isinstance(n_.func, ast.Name) and n_.func.id == st.name
+                            for n_ in ast.walk(st)):
+            helpers[st.name] = st
+    if not helpers:
+        return fn
+    counter = [0]
+
+    def expand(stmts):
+        out = []
+        for st in stmts:
+            if isinstance(st, ast.FunctionDef) and st.name in helpers:
+                continue
+            if isinstance(st, ast.Assign) and len(st.targets) == 1 and isinstance(st.value, ast.Call) \
+                    and isinstance(st.value.func, ast.Name) and st.value.func.id in helpers and not st.value.keywords:
+                g = helpers[st.value.func.id]
+                if len(g.args.args) == len(st.value.args):
+                    counter[0] += 1
+                    local = {a.arg for a in g.args.args}
+                    for b_ in g.body:
+                        for n_ in ast.walk(b_):
+                            if isinstance(n_, ast.Name) and isinstance(n_.ctx, ast.Store):
+                                local.add(n_.id)
+                    ren = {v: '%s_%d_%s' % (g.name, counter[0], v) for v in local}
+
+                    class R(ast.NodeTransformer):
+                        def visit_Name(self_, node):
+                            return ast.copy_location(ast.Name(id=ren.get(node.id, node.id), ctx=node.ctx), node)
+                    for a, v in zip(g.args.args, st.value.args):
+                        out.append(ast.Assign(targets=[ast.Name(id=ren[a.arg], ctx=ast.Store())], value=v))
+                    for b_ in g.body[:-1]:
+                        out.append(R().visit(copy.deepcopy(b_)))
+                    out.append(ast.Assign(targets=st.targets, value=R().visit(copy.deepcopy(g.body[-1].value))))
+                    continue
+            st = copy.copy(st)
+            for fld in ('body', 'orelse'):
+                if isinstance(getattr(st, fld, None), list) and getattr(st, fld):
+                    setattr(st, fld, expand(getattr(st, fld)))
+            out.append(st)
+        return out
+    fn = copy.copy(fn)
+    fn.body = expand(fn.body)
+    return ast.fix_missing_locations(fn)
+
+
 def find_func(tree, cls, name):
     for node in tree.body:
         if cls is None and isinstance(node, ast.FunctionDef) and node.name == name:
-            return ast.fix_missing_locations(Normalise().visit(copy.deepcopy(node)))
+            return inline_local_functions(ast.fix_missing_locations(Normalise().visit(copy.deepcopy(node))))
         if isinstance(node, ast.ClassDef) and node.name == cls:
             for sub in node.body:
                 if isinstance(sub, ast.FunctionDef) and sub.name == name:
-                    return ast.fix_missing_locations(Normalise().visit(copy.deepcopy(sub)))
+                    return inline_local_functions(ast.fix_missing_locations(Normalise().visit(copy.deepcopy(sub))))
     return None
 
 
@@ -390,7 +442,62 @@ class Tr:
                     if hasattr(s, f):
                         walk(getattr(s, f))
         walk(body)
-        return {k for k, v in count.items() if v > 1}
+        multi = {k for k, v in count.items() if v > 1}
+        return {k for k in multi if not self.demotable(body, k)}
+
+    def demotable(self, body, x):
+        """`x` is assigned several times but never carries a value out of the block that assigned it (every read is
+        reached only by an assignment of the same or an enclosing block, made earlier in program order): each assignment
+        can then be an immutable `let` of its block, and `x` is no part of a loop state"""
+        ok = [True]
+
+        def reads(node):
+            return any(isinstance(n_, ast.Name) and n_.id == x and isinstance(n_.ctx, ast.Load) for n_ in ast.walk(node))
+
+        def assigns_anywhere(stmts):
+            for st in stmts:
+                for n_ in ast.walk(st):
+                    if isinstance(n_, ast.Name) and n_.id == x and isinstance(n_.ctx, (ast.Store, ast.Del)):
+                        return True
+            return False
+
+        def plain(st):
+            return isinstance(st, ast.Assign) and len(st.targets) == 1 and isinstance(st.targets[0], ast.Name) and st.targets[0].id == x
+
+        def walk(stmts, stale):
+            for st in stmts:
+                if plain(st):
+                    if reads(st.value) and stale:
+                        ok[0] = False
+                    stale = False
+                    continue
+                nested = [getattr(st, f) for f in ('body', 'orelse') if isinstance(getattr(st, f, None), list) and getattr(st, f)]
+                if not nested:
+                    if assigns_anywhere([st]):
+                        ok[0] = False            # augmented / subscript / tuple assignment
+                    elif reads(st) and stale:
+                        ok[0] = False
+                    continue
+                # header expressions of the compound statement
+                for f in ('test', 'iter'):
+                    if getattr(st, f, None) is not None and reads(getattr(st, f)) and stale:
+                        ok[0] = False
+                inner_assigns = any(assigns_anywhere(b) for b in nested)
+                for b in nested:
+                    loop = isinstance(st, (ast.For, ast.While)) and b is st.body
+                    walk(b, stale or (loop and inner_assigns))
+                if inner_assigns:
+                    stale = True
+        for n_ in ast.walk(ast.Module(body=list(body), type_ignores=[])):
+            if isinstance(n_, ast.AugAssign) and isinstance(n_.target, ast.Name) and n_.target.id == x:
+                return False
+            if isinstance(n_, ast.Call) and isinstance(n_.func, ast.Attribute) and n_.func.attr in ('append', 'extend') \
+                    and isinstance(n_.func.value, ast.Name) and n_.func.value.id == x:
+                return False
+            if isinstance(n_, ast.Subscript) and isinstance(n_.ctx, ast.Store) and isinstance(n_.value, ast.Name) and n_.value.id == x:
+                return False
+        walk(body, True)
+        return ok[0]
 
     def block(self, stmts, ind):
         out = []
@@ -505,6 +612,7 @@ class Tr:
         for head, lines in getattr(self, 'stmt_map', {}).items():
             if self.src(s).startswith(head):
                 self.declared[-1].update(getattr(self, 'stmt_map_declares', {}).get(head, ()))
+                self.stmt_declared = getattr(self, 'stmt_declared', set()) | set(getattr(self, 'stmt_map_declares', {}).get(head, ()))
                 return [ind + l for l in lines]
         if isinstance(s, ast.Assign):
             if len(s.targets) != 1:
@@ -538,7 +646,8 @@ class Tr:
                     self.aliases = dict(getattr(self, 'aliases', {}))
                     self.aliases[x] = v_
                     return []
-            if self.is_declared(x):
+            if self.is_declared(x) and (x in self.mutable or x in getattr(self, 'hoisted_names', ()) or x in self.opt_locals
+                                        or x.endswith('_cls') or x in ('d_', 'st_', 'fx') or x in getattr(self, 'stmt_declared', ())):
                 return ['%s%s := %s' % (ind, x, self.e(s.value))]
             self.declared[-1].add(x)
             return ['%slet %s%s := %s' % (ind, 'mut ' if x in self.mutable else '', x, self.e(s.value))]
